@@ -306,7 +306,7 @@ def process_template(tmpl_text, repo=None):
                 entry["injections"].append({"where": f"loop {k}", "text": payload})
             elif d["kind"] in ("after", "before"):
                 sm = re.match(r'^`(.*?)`$', d["arg"])
-                anchor = sm.group(1)
+                anchor = sm.group(1).replace("\\n", "\n")
                 idxs = [mm.start() for mm in re.finditer(re.escape(anchor), t1)]
                 if len(idxs) != 1:
                     # A ghost hint whose anchor statement is gone is skipped; the unit is then
